@@ -798,7 +798,7 @@ func norm(e inst.Event, run int) map[string]any {
 		e.Data = map[string]any{}
 	}
 	return map[string]any{
-		"run": run, "seq": e.Seq, "t": e.T, "ev": e.Ev, "gk": e.Gk, "ag": e.Ag, "integ": e.Integ, "alerts": e.Alerts,
+		"run": run, "seq": e.Seq, "t": e.T, "ev": e.Ev, "gk": e.Gk, "ag": e.Ag, "recv": e.Recv, "integ": e.Integ, "alerts": e.Alerts,
 		"outcome": e.Outcome, "deadline": e.Deadline, "st": e.Start, "tick": e.TickNow, "firing": e.Firing, "resolved": e.Resolved, "data": e.Data,
 	}
 }
